@@ -6,7 +6,7 @@ from checks import gb_src, c41
 META = {
     "engine": "gen", "level": "exploration", "design_ref": "DESIGN.md §4.4 C42",
     "technique": "K returned with K[0]=4 compared with Richardson-extrapolated central finite differences (steps h, h/2, h/4) of the stress integrated by the same generated behaviour at perturbed total strains; points where the differences do not converge (regime switch in the stencil) skipped and counted",
-    "text": "For the C41 behaviours that provide a consistent tangent operator (Default-DSL elasticity; Norton in the Implicit DSL with NewtonRaphson, NewtonRaphson_NumericalJacobian, Broyden2 (closed form), PowellDogLeg_NewtonRaphson, LevenbergMarquardt through getPartialJacobianInvert; IsotropicMisesCreep and IsotropicPlasticMisesFlow DSLs; StandardElastoViscoPlasticity brick plasticity and Norton; the reference ImplicitNorton_Broyden.mfront verbatim) and every hypothesis they support, at random states and increments in the elastic and inelastic regimes, the operator is compared component-wise with the finite-difference derivative of the integrated stress with respect to the total strain at the end of the step; the stress returned with and without the operator request must also be identical.",
+    "text": "For the C41 behaviours that provide a consistent tangent operator (Default-DSL elasticity; Norton in the Implicit DSL with NewtonRaphson, NewtonRaphson_NumericalJacobian, Broyden2 (closed form), PowellDogLeg_NewtonRaphson, LevenbergMarquardt through getPartialJacobianInvert; IsotropicMisesCreep and IsotropicPlasticMisesFlow DSLs; StandardElastoViscoPlasticity brick plasticity and Norton; the reference ImplicitNorton_Broyden.mfront verbatim) and every hypothesis they support, at random states and increments in the elastic and inelastic regimes, with a temperature increment over the step in a planned share of the cases (none / 1 K / 150 K), including synthesised brick behaviours on the Hooke potential whose elastic properties and flow / hardening parameters are formulae of the temperature (theta = 0.5 and 1 both planned), the operator is compared component-wise with the finite-difference derivative of the integrated stress with respect to the total strain at the end of the step; the stress returned with and without the operator request must also be identical.",
     "note": "Trusted: smoothness of the integration on the stencil where the three finite-difference levels agree (|R1(h/2)-R1(h)| <= 1e-5 |K|); tolerance 50 x that estimate + 2e-6 |K| + solver-threshold noise / (h/4). In (generalised) plane stress only the block of the components that are inputs is judged (the axial row/column is recorded). Behaviours whose operator comes from a quasi-Newton jacobian approximation (Broyden, PowellDogLeg_Broyden templates) are not judged.",
 }
 
@@ -38,6 +38,15 @@ def run(ctx):
         ctx.require(sum(v.get("n", 0) for k, v in tab.items() if k.startswith(fam) and k.endswith(":tangent")) >= 3 * n,
                     "too few judged tangent operators for %s" % fam)
     c = ctx.cov.get("counters", {})
+    # planned strata of the behaviours whose elastic properties depend on the temperature: (no / near / far temperature
+    # increment) x (theta 0.5 / 1)
+    for bn in ("VfBrickTElasticity", "VfBrickTNorton", "VfBrickTPlasticity"):
+        for dT in ("0", "1K", "150K"):
+            for th in ("0.5", "1.0"):
+                k = "%s:judged:dT=%s:theta=%s" % (bn, dT, th)
+                ctx.require(c.get(k, 0) >= max(5, (3 * n) // 10), "planned stratum %s: %d operators judged, %d planned" % (k, c.get(k, 0), max(5, (3 * n) // 10)))
+    for bn in ("VfElasticity", "VfImplicitNorton_NR", "VfBrickPlasticity"):
+        ctx.require(c.get("%s:judged:dT=150K" % bn, 0) >= n, "no judged operator with a temperature increment for %s" % bn)
     for fam in ("VfPlasticity", "VfBrickPlasticity"):
         ctx.require(c.get(fam + ":inelastic-points", 0) >= n and c.get(fam + ":elastic-points", 0) >= n,
                     "%s: both regimes must be judged" % fam)
